@@ -55,9 +55,6 @@ Definition once_loop (s : stream) : stream :=
 
 Definition fresh_state (st : state) : state := mkSt (sub st) (ctr st + 1).
 
-(* environment of a relation body / inlined helper: parameters in order, last parameter = index 0 *)
-Definition arg_env (e : env) (args : list pterm) : env := rev (map (close e) args).
-
 Section Eval.
   Variable ds : defs.
   (* fuel handed to unify for one equation *)
